@@ -84,13 +84,82 @@ Qed.
 
 (* S4: a Scan is in flight only with running goroutines and no recorded error *)
 Definition next_inv (s : state) : Prop :=
-  c_pc s = CNext -> running s = true /\ s_err s = 0%Z.
+  (c_pc s = CNext -> running s = true /\ s_err s = 0%Z) /\
+  (started s = true -> running s = false -> is_err (s_err s) = true) /\
+  (started s = false -> running s = false).
+
+Lemma es_next : forall s, next_inv s ->
+  next_inv (ensure_started c s) /\ c_pc (ensure_started c s) = c_pc s /\
+  (is_err (s_err (ensure_started c s)) = false -> running (ensure_started c s) = true /\ s_err (ensure_started c s) = 0%Z).
+Proof.
+  intros s HI. pose proof HI as (H1 & H2 & H3). unfold ensure_started. destruct (started s) eqn:Es.
+  - split; [exact HI|]. split; [reflexivity|]. intros He.
+    destruct (running s) eqn:Er.
+    + split; [reflexivity|]. unfold is_err in He. apply negb_false_iff, Z.eqb_eq in He. exact He.
+    + rewrite (H2 eq_refl eq_refl) in He. discriminate He.
+  - destruct (is_err (c_hdr_err c)) eqn:Eh; cbn.
+    + split; [|split; [reflexivity|intros He; rewrite Eh in He; discriminate He]].
+      unfold next_inv. cbn. split; [|split].
+      * intros Hc. destruct (H1 Hc) as [Hr _]. rewrite (H3 eq_refl) in Hr. discriminate Hr.
+      * intros _ _. exact Eh.
+      * intros E; discriminate E.
+    + split; [|split; [reflexivity|]].
+      * unfold next_inv. cbn. split; [|split].
+        -- intros Hc. destruct (H1 Hc) as [Hr _]. rewrite (H3 eq_refl) in Hr. discriminate Hr.
+        -- intros _ E; discriminate E.
+        -- intros E; discriminate E.
+      * intros He. split; [reflexivity|]. destruct (c_pc s) eqn:Ec.
+        -- unfold is_err in He. apply negb_false_iff, Z.eqb_eq in He. exact He.
+        -- destruct (H1 eq_refl) as [Hr _]. rewrite (H3 eq_refl) in Hr. discriminate Hr.
+        -- unfold is_err in He. apply negb_false_iff, Z.eqb_eq in He. exact He.
+Qed.
 
 Lemma next_step : forall l s s' o, next_inv s -> step c l s = Some (s', o) -> next_inv s'.
 Proof.
   intros l s s' o HI H.
-  destruct l as [d|i d|d| |a]; [| | | |destruct a]; step_cases H; unfold next_inv in *; cbn;
-    try exact HI; try (intros E; discriminate E).
-  all: idtac "left". Show.
-Abort.
+  destruct l as [d|i d|d| |a]; [| | | |destruct a]; step_cases H;
+    try (destruct (es_next s HI) as (HE & HEc & HEr));
+    unfold next_inv in *; cbn;
+    try exact HI; try exact HE;
+    try (destruct HI as (H1 & H2 & H3); split; [|split]; try exact H2; try exact H3; try exact H1;
+         intros; try discriminate; try reflexivity; auto; fail).
+  - destruct HI as (H1 & H2 & H3). destruct (H1 Heqc0) as [Hr _].
+    split; [intros E; discriminate E|split; [intros _ Hf; rewrite Hr in Hf; discriminate Hf|exact H3]].
+  - destruct HE as (_ & HE2 & HE3). split; [|split; assumption]. intros _. apply HEr.
+    match goal with Hb : (_ || _ || _)%bool = false |- _ =>
+      apply orb_false_iff in Hb; destruct Hb as [Hb _]; apply orb_false_iff in Hb; destruct Hb as [Hb _]; exact Hb end.
+Qed.
+
+Lemma reach_next : forall s, reach c s -> next_inv s.
+Proof.
+  intros s H. induction H as [|s l s' o Hr IH Hs].
+  - unfold next_inv, init. cbn. repeat split; intros; try discriminate; reflexivity.
+  - exact (next_step l s s' o IH Hs).
+Qed.
+
+(* S5: while the reader still holds the first block of a resumed file (its unconditional send),
+   no worker has moved *)
+Definition first_inv (s : state) : Prop :=
+  forall k it, r_pc s = RSend k it false -> forall i, i < c_n c -> getw i (ws s) = w0.
+
+Lemma first_step : forall l s s' o, first_inv s -> step c l s = Some (s', o) -> first_inv s'.
+Proof.
+  intros l s s' o HI H.
+  destruct l as [d|i d|d| |a]; [| | | |destruct a]; step_cases H; unfold first_inv in *; cbn;
+    try exact HI; try (intros k0 it0 E; discriminate E);
+    try (es_rw c s; exact HI).
+  all: intros k0 it0 E j Hj; exfalso.
+  all: try (match goal with Hr : is_rdone (r_pc _) = true |- _ => rewrite E in Hr; discriminate Hr end).
+  all: try (match goal with Hlt : (?i <? _) = true |- _ => apply Nat.ltb_lt in Hlt; pose proof (HI k0 it0 E i Hlt) as Hw end).
+  all: try (match goal with Ho : w_out (getw ?idx _) = _ :: _ |- _ =>
+    assert (idx < c_n c) as Hidx by (apply Nat.mod_upper_bound; lia); pose proof (HI k0 it0 E idx Hidx) as Hw end).
+  all: rewrite Hw in *; cbn in *; congruence.
+Qed.
+
+Lemma reach_first : forall s, reach c s -> first_inv s.
+Proof.
+  intros s H. induction H as [|s l s' o Hr IH Hs].
+  - intros k it _ i Hi. unfold init. cbn. apply getw_repeat. exact Hi.
+  - exact (first_step l s s' o IH Hs).
+Qed.
 End Live.
